@@ -1,5 +1,6 @@
 (* Props/C20.v — property C20: tracing logs are attributed to the scenario and step that emitted them. *)
-From CV Require Import Model.Base Model.Tracing Proofs.BaseP Proofs.TracingP.
+From CV Require Import Model.Base Model.Tracing Model.TracingStart Proofs.BaseP Proofs.TracingP.
+From CV Require Proofs.TracingP2.
 
 (* for every interleaving of step tasks and forwarder (every label list): when a step's result event is emitted,
    every log sent inside its span has already been forwarded, to the scenario it was emitted for *)
@@ -40,3 +41,37 @@ Theorem C20_logs_exactly_once_in_order :
     logs_of out ++ map as_out (t_logs s) = map as_out (emitted ls).
 Proof. exact logs_exactly_once_in_order. Qed.
 Print Assumptions C20_logs_exactly_once_in_order.
+
+(* "POSITIONED AFTER THE STARTED EVENT OF THE STEP OR HOOK THAT EMITTED IT AND BEFORE ITS RESULT EVENT" — on the layer
+   with Started events (Model/TracingStart.v, replayed on every observed run): for every interleaving, when the result of a
+   step or Before-hook span x is emitted, every log emitted inside x has been delivered, and the Started event of x
+   precedes it (messages pairwise distinct, which the harness guarantees; TracingP2 also has a positional formulation
+   without that hypothesis) *)
+Theorem C20_log_between_started_and_result :
+  forall is_after ls1 s1 out1 x sc m s2 o,
+    texec2 is_after tinit2 ls1 = Some (s1, out1) ->
+    tstep2 is_after s1 (LBase (TResult x)) = Some (s2, o) ->
+    NoDup (map TracingP2.log_key (emitted (TracingP2.base_labels ls1))) ->
+    In (LBase (TEmit sc m x)) ls1 ->
+    is_after x = false ->
+    o = [OBase (TRes x)] /\
+    exists a b, out1 = a ++ OBase (TLog sc m) :: b /\ In (OStart x) a.
+Proof. exact TracingP2.log_between_started_and_result. Qed.
+Print Assumptions C20_log_between_started_and_result.
+
+(* every theorem about the base protocol carries over to the layer *)
+Theorem C20_layer_projects_on_the_protocol :
+  forall is_after ls2 s2 out2,
+    texec2 is_after tinit2 ls2 = Some (s2, out2) ->
+    texec tinit (TracingP2.base_labels ls2) = Some (t2_base s2, TracingP2.base_outs out2).
+Proof. exact TracingP2.projection. Qed.
+
+(* K20a, REFUTED for After hooks: the runner runs the After hook before it emits the hook's Started event, so a log of
+   the hook is delivered BEFORE that event — a witness run of the faithful model (the same shape is observed on the real
+   code: known/C20_K20a.json) *)
+Theorem C20_K20a_after_hook_logs_precede_started_refuted :
+  exists is_after ls2 s2 out2 x sc m a b,
+    texec2 is_after tinit2 ls2 = Some (s2, out2) /\ is_after x = true /\
+    In (LBase (TEmit sc m x)) ls2 /\ out2 = a ++ OBase (TLog sc m) :: b /\ ~ In (OStart x) a /\ In (OStart x) b.
+Proof. exact TracingP2.after_hook_logs_precede_started_refuted. Qed.
+Print Assumptions C20_K20a_after_hook_logs_precede_started_refuted.
